@@ -135,3 +135,63 @@ Theorem decoder_close_panic_window : forall remaining,
   decoder_close_hashed_len remaining = None <-> remaining < ltx_checksum_size.
 Proof. exact ResProofs.decoder_close_panic_window. Qed.
 Print Assumptions decoder_close_panic_window.
+
+(** ---- Codec layer: the LTX byte layout (coq/Codec/Format.v, Codec.v) --------
+    [encode] / [decode] model ltx.Encoder / ltx.Decoder on bytes.  LZ4
+    ([compress], [decompress], old-format [frame_decode]) and
+    [cks] = ChecksumFlag|CRC-64 are parameters; the only fact assumed about them
+    is the LZ4 round trip, and only where stated. *)
+From LS Require Import Codec.Format Codec.Codec.
+From LS Require Codec.RoundTrip Codec.TruncProofs Codec.Proofs.
+
+(** Round trip on bytes: every file the encoder accepts decodes to itself —
+    any number of pages, every page size. *)
+Theorem decode_encode : forall (compress : list N -> list N) (decompress : list N -> list N -> option (list N))
+    (frame_decode : nat -> list N -> option (list N * nat)) (cks : list N -> N),
+  (forall d buf, length buf = length d -> decompress (compress d) buf = Some d) ->
+  forall f, wf compress cks f -> decode decompress frame_decode cks (encode compress cks f) = DOk f.
+Proof. exact LS.Codec.RoundTrip.decode_encode. Qed.
+Print Assumptions decode_encode.
+
+(** Every proper prefix of an encoded file is rejected: with an error, except
+    for the 8 lengths right after the zero page header, where Decoder.Close
+    panics — finding F7 (C10/ltx-decoder-close-panics-...) stated on bytes. *)
+Theorem truncation_detected : forall (compress : list N -> list N) (decompress : list N -> list N -> option (list N))
+    (frame_decode : nat -> list N -> option (list N * nat)) (cks : list N -> N),
+  (forall d buf, length buf = length d -> decompress (compress d) buf = Some d) ->
+  forall f (k : nat), wf compress cks f -> (k < length (encode compress cks f))%nat ->
+  if (Nat.leb (end_off compress f) k) && (Nat.ltb k (end_off compress f + 8)%nat)
+  then decode decompress frame_decode cks (firstn k (encode compress cks f)) = DPanic
+  else exists e, decode decompress frame_decode cks (firstn k (encode compress cks f)) = DErr e.
+Proof. exact LS.Codec.TruncProofs.truncation_detected. Qed.
+Print Assumptions truncation_detected.
+
+(** Damage modulo the hash, with NO assumption on LZ4: whatever bytes the decoder
+    is given instead of [encode f] — a single changed byte or anything else —
+    it returns an error, panics, or returns exactly [f], unless the checksum of
+    a hashed stream DIFFERENT from [stream f] equals the 8 bytes it is compared
+    with (per-input hypothesis).  The stream holds the UNCOMPRESSED page data:
+    a flip inside a compressed block that LZ4 decodes to the same bytes leaves
+    stream and file unchanged, anything else changes the stream
+    (Codec/Proofs.v frame_step_any_block). *)
+Theorem flip_detected_modulo_hash : forall (compress : list N -> list N) (decompress : list N -> list N -> option (list N))
+    (frame_decode : nat -> list N -> option (list N * nat)) (cks : list N -> N) f b',
+  wf compress cks f ->
+  (forall t', LS.Codec.Proofs.parse_only decompress frame_decode b' = DOk t' ->
+     LS.Codec.Proofs.tstream t' <> stream compress f -> cks (LS.Codec.Proofs.tstream t') <> t_fcks t') ->
+  decode decompress frame_decode cks b' = DOk f \/
+  (exists e, decode decompress frame_decode cks b' = DErr e) \/
+  decode decompress frame_decode cks b' = DPanic.
+Proof. exact LS.Codec.Proofs.flip_detected_modulo_hash. Qed.
+Print Assumptions flip_detected_modulo_hash.
+
+(** Faults/Restore.v's abstract [H], [body], [cks], [parse_ok] instantiated by the codec:
+    [verified] holds exactly for the inputs the byte-level decoder accepts. *)
+Theorem codec_instantiates_restore : forall (decompress : list N -> list N -> option (list N))
+    (frame_decode : nat -> list N -> option (list N * nat)) (cks : list N -> N) b,
+  verified cks (LS.Codec.Proofs.codec_body decompress frame_decode)
+           (LS.Codec.Proofs.codec_fcks decompress frame_decode)
+           (LS.Codec.Proofs.codec_parse_ok decompress frame_decode cks) b = true <->
+  exists t, decode_full decompress frame_decode cks b = DOk t.
+Proof. exact LS.Codec.Proofs.codec_instantiates_restore. Qed.
+Print Assumptions codec_instantiates_restore.
